@@ -59,9 +59,11 @@ func (i ImportNames) LookupName(pkgPath string) (name string, ok bool) {
 // LookupPath looks up the map with the pkgName and returns its corresponding path
 // in the conversion setup file.
 func (i ImportNames) LookupPath(pkgName string) (path string, ok bool) {
+	// Map iteration order is random; when several paths carry the same name
+	// pick the smallest one so that the result does not vary between runs.
 	for p, n := range i {
-		if n == pkgName {
-			return p, true
+		if n == pkgName && (!ok || p < path) {
+			path, ok = p, true
 		}
 	}
 	return
